@@ -5,7 +5,7 @@ reactive.py defines `__contains_` (one underscore short, name-mangled to `_rx__c
 `item == x` is an rx, `bool(rx)` is always True -> the answer is True for every non-empty
 iterable value, whatever x is.  Renaming the method to `__contains__` does not help (Python
 coerces the returned rx to bool: always True, even for an empty value); the proposed fix makes it
-raise TypeError like `len(<rx_obj>)` does (notes/c09-contains-proposed-fix.diff).
+raise TypeError like `len(<rx_obj>)` does (applied to /repo as c09ac3d; notes/c09-contains-proposed-fix.diff).
 Exit 1 = the silent wrong answer is present.
 """
 import sys, warnings
